@@ -678,9 +678,9 @@ def _merge(l, r, **kw):
     return l.merge(r, **kw)
 
 
-def _op(name, fn, family, table="T_int", unordered=False, noindex=False, binary=None, refusal=None):
+def _op(name, fn, family, table="T_int", unordered=False, noindex=False, binary=None, refusal=None, window=None):
     return {"name": name, "fn": fn, "family": family, "table": table, "unordered": unordered, "noindex": noindex,
-            "binary": binary, "refusal": refusal or ()}
+            "binary": binary, "refusal": refusal or (), "window": window}
 
 
 # binary: "right" = second table T_right (independent layout); "same" = the same table with an independent layout
@@ -776,23 +776,23 @@ OPS = [
     _op("cumsum_after_filter", lambda t: t["L"][t["L"].a > 3][["a", "b"]].cumsum(), "cumulative"),
     _op("cumcount_like", lambda t: (t["L"].b * 0 + 1).cumsum(), "cumulative"),
     # ---- windows
-    _op("shift1", lambda t: t["L"][["a", "b"]].shift(1), "overlap"),
-    _op("shift_m1", lambda t: t["L"].a.shift(-1), "overlap"),
-    _op("shift2", lambda t: t["L"].a.shift(2), "overlap"),
-    _op("shift1_plus_shift2", lambda t: t["L"].a.shift(1) + t["L"].a.shift(2), "overlap"),
-    _op("diff1", lambda t: t["L"][["a", "b"]].diff(1), "overlap"),
-    _op("diff1_plus_diff2", lambda t: t["L"].b.diff(1) - t["L"].b.diff(2), "overlap"),
-    _op("diff_m1", lambda t: t["L"].b.diff(-1), "overlap"),
-    _op("ffill", lambda t: t["L"].c.ffill(), "overlap", refusal=_FILL_REFUSAL),
-    _op("bfill", lambda t: t["L"].c.bfill(), "overlap", refusal=_FILL_REFUSAL),
-    _op("ffill_limit", lambda t: t["L"].c.ffill(limit=1), "overlap", refusal=_FILL_REFUSAL),
-    _op("rolling_sum2", lambda t: t["L"].a.rolling(2).sum(), "overlap", refusal=_ROLLING_REFUSAL),
-    _op("rolling_max3", lambda t: t["L"][["a", "b"]].rolling(3).max(), "overlap", refusal=_ROLLING_REFUSAL),
-    _op("rolling_minp", lambda t: t["L"].b.rolling(3, min_periods=1).min(), "overlap", refusal=_ROLLING_REFUSAL),
-    _op("rolling_center", lambda t: t["L"].a.rolling(3, center=True).sum(), "overlap", refusal=_ROLLING_REFUSAL),
-    _op("rolling_count_nulls", lambda t: t["L"].c.rolling(2).count(), "overlap", refusal=_ROLLING_REFUSAL),
+    _op("shift1", lambda t: t["L"][["a", "b"]].shift(1), "overlap", window=(1, 0)),
+    _op("shift_m1", lambda t: t["L"].a.shift(-1), "overlap", window=(0, 1)),
+    _op("shift2", lambda t: t["L"].a.shift(2), "overlap", window=(2, 0)),
+    _op("shift1_plus_shift2", lambda t: t["L"].a.shift(1) + t["L"].a.shift(2), "overlap", window=(2, 0)),
+    _op("diff1", lambda t: t["L"][["a", "b"]].diff(1), "overlap", window=(1, 0)),
+    _op("diff1_plus_diff2", lambda t: t["L"].b.diff(1) - t["L"].b.diff(2), "overlap", window=(2, 0)),
+    _op("diff_m1", lambda t: t["L"].b.diff(-1), "overlap", window=(0, 1)),
+    _op("ffill", lambda t: t["L"].c.ffill(), "overlap", refusal=_FILL_REFUSAL, window=(1, 0)),
+    _op("bfill", lambda t: t["L"].c.bfill(), "overlap", refusal=_FILL_REFUSAL, window=(0, 1)),
+    _op("ffill_limit", lambda t: t["L"].c.ffill(limit=1), "overlap", refusal=_FILL_REFUSAL, window=(1, 0)),
+    _op("rolling_sum2", lambda t: t["L"].a.rolling(2).sum(), "overlap", refusal=_ROLLING_REFUSAL, window=(1, 0)),
+    _op("rolling_max3", lambda t: t["L"][["a", "b"]].rolling(3).max(), "overlap", refusal=_ROLLING_REFUSAL, window=(2, 0)),
+    _op("rolling_minp", lambda t: t["L"].b.rolling(3, min_periods=1).min(), "overlap", refusal=_ROLLING_REFUSAL, window=(2, 0)),
+    _op("rolling_center", lambda t: t["L"].a.rolling(3, center=True).sum(), "overlap", refusal=_ROLLING_REFUSAL, window=(1, 1)),
+    _op("rolling_count_nulls", lambda t: t["L"].c.rolling(2).count(), "overlap", refusal=_ROLLING_REFUSAL, window=(1, 0)),
     _op("map_overlap", lambda t: t["L"].a.map_overlap(lambda s: s.shift(1) + s.shift(-1), 1, 1, meta=("a", "float64")) if _dd(t["L"])
-        else t["L"].a.shift(1) + t["L"].a.shift(-1), "overlap"),
+        else t["L"].a.shift(1) + t["L"].a.shift(-1), "overlap", window=(1, 1)),
     # ---- loc / head / tail
     _op("loc_slice", lambda t: t["L"].loc[2:6], "loc"),
     _op("loc_open", lambda t: t["L"].loc[4:], "loc"),
@@ -800,6 +800,14 @@ OPS = [
     _op("loc_mask_cols", lambda t: t["L"].loc[t["L"].b > 1, ["a", "c"]], "loc"),
     _op("loc_dup_index", lambda t: t["L"].loc[1:2], "loc", table="T_dupidx"),
     _op("loc_dt", lambda t: t["L"].loc["2000-01-02":"2000-01-04"], "loc", table="T_dt"),
+    # ---- duplicate index values straddling partition borders
+    _op("dup_cumsum", lambda t: t["L"].cumsum(), "cumulative", table="T_dupidx"),
+    _op("dup_shift", lambda t: t["L"].a.shift(1), "overlap", table="T_dupidx", window=(1, 0)),
+    _op("dup_gb_sum", lambda t: t["L"].groupby("b").a.sum(), "groupby_agg", table="T_dupidx", unordered=True),
+    _op("dup_value_counts_index", lambda t: t["L"].index.to_series().value_counts(), "value_counts", table="T_dupidx", unordered=True),
+    _op("dup_sort", lambda t: t["L"].sort_values(["b", "a"]), "sort", table="T_dupidx"),
+    _op("dup_merge_index", lambda t: _merge(t["L"][["a"]], t["R"][["b"]], left_index=True, right_index=True, how="inner"),
+        "join", table="T_dupidx", binary="same", unordered=True),
     _op("head_all", lambda t: t["L"].head(4, npartitions=-1) if _dd(t["L"]) else t["L"].head(4), "head"),
     # ---- joins (independent layouts of the two inputs)
     *[_op(f"merge_{how}_on", lambda t, how=how: _merge(t["L"], t["R"], on="b", how=how), "join", binary="right",
@@ -869,6 +877,15 @@ def _site(built, known):
     return None
 
 
+def _window_guard(cuts, before, after):
+    """Overlap.guardOK: every partition with a successor has >= before rows, every one with a predecessor >= after."""
+    sizes = [cuts[i + 1] - cuts[i] for i in range(len(cuts) - 1)]
+    n = len(sizes)
+    ok_b = before == 0 or all(sizes[i] >= before for i in range(n - 1))
+    ok_a = after == 0 or all(sizes[i] >= after for i in range(1, n))
+    return ok_b and ok_a
+
+
 def run_case(case):
     """-> None (property holds / documented refusal) | (sig, detail)"""
     import warnings
@@ -894,8 +911,12 @@ def run_case(case):
             got = built.compute() if hasattr(built, "compute") else built
         except Exception as ex:  # noqa: BLE001
             msg = str(ex)
-            if isinstance(ex, NotImplementedError) and _OVERLAP_REFUSAL in msg and op["family"] in ("overlap", "groupby_transform"):
-                return None
+            if isinstance(ex, NotImplementedError) and _OVERLAP_REFUSAL in msg and op["window"] is not None:
+                # legitimate exactly when a neighbour partition is shorter than the window (Overlap.guardOK is false)
+                if not _window_guard(case["cutsL"], *op["window"]):
+                    return None
+                sig["what"] = "refused-although-window-fits"
+                return (sig, f"NotImplementedError({msg[:60]}…) although every neighbour partition holds the window {op['window']}")
             if isinstance(ex, (ValueError, NotImplementedError)) and any(m in msg for m in op["refusal"]):
                 return None
             if isinstance(ex, AssertionError) and op["family"] in ("align", "concat") and really_known and R is not None:
@@ -1024,6 +1045,7 @@ def _cases(ctx, broken):
             fams.update(("reduction", "cumulative", "overlap", "elementwise", "groupby_agg", "join"))
     if fams:
         steered = [c for c in cases if OPS_BY_NAME[c["op"]]["family"] in fams]
+    ctx.steered_families = fams
     rng = ctx.rng
     if ctx.quick:
         # a seeded slice: every operator at least with a few layouts, then a random remainder
@@ -1066,8 +1088,10 @@ def support(ctx, broken):
             per_sig[key] = per_sig.get(key, 0) + 1
             if per_sig[key] <= 2 and len(sup.failures) < 40:
                 sup.failures.append(Failure(sig=sig, case=case, detail=detail))
-    # smallest layouts first: the reported case is the simplest one
-    sup.failures.sort(key=lambda fl: (len(fl.case["cutsL"]) + len(fl.case["cutsR"] or []), fl.case["op"]))
+    # failures in the families a broken obligation points at first, then smallest layouts first
+    fams = getattr(ctx, "steered_families", set())
+    sup.failures.sort(key=lambda fl: (OPS_BY_NAME[fl.case["op"]]["family"] not in fams,
+                                      len(fl.case["cutsL"]) + len(fl.case["cutsR"] or []), fl.case["op"]))
     return sup
 
 
